@@ -87,3 +87,12 @@ func init() {
 		return []Value{r}
 	}
 }
+
+func init() {
+	// string cloning helpers use unsafe.String; semantically the identity on the contents
+	clone := func(ex *Exec, st *State, fn *ssa.Function, args []Value, depth int) []Value {
+		return []Value{args[0]}
+	}
+	intrinsics["internal/stringslite.Clone"] = clone
+	intrinsics["strings.Clone"] = clone
+}
